@@ -290,7 +290,7 @@ def from_Bar(bar, width=40, tuning=None, collapse=True):
 
             # Add to result
             for i in range(len(result)):
-                dur = int(((1.0 / duration) * qsize) * 4) - maxlen
+                dur = max(1, int(((1.0 / duration) * qsize) * 4) - maxlen)
                 if i not in d:
                     result[i] += "-" * maxlen + "-" * dur
                 else:
